@@ -115,7 +115,7 @@ START_ASSUME = COMMON_ASSUME + [
     "caller's descriptors in two layouts (below / above the library's), 1 unrelated descriptor at the "
     "highest permitted number",
 ]
-START_OUTSIDE = ["kernel behaviour (it is the model)", "more than 2 faults per path", "descriptors >= 18",
+START_OUTSIDE = ["kernel behaviour (it is the model)", "more than F faults per path (F = 1 quick, 3 thorough)", "descriptors >= 18 (22 thorough)",
                  "SIGKILL of the child between fork and exec", "real thread schedules"]
 
 for _pid in ("C05", "C06", "C10", "C11", "C12"):
